@@ -1,4 +1,5 @@
 """C01 — items, then at most one terminal, then nothing (suite `pipe`)."""
+import importlib
 import random
 import re
 
@@ -55,7 +56,7 @@ def gen_cases(rng, tier, variants, n_random):
 class C01(Prop):
     pid = "C01"
     lean_module = "RxModel.Props.C01"
-    extra_modules = ("RxModel.Props.C01C",)
+    extra_modules = ("RxModel.Props.C01C", "RxModel.Props.C01M")
     design_ref = "DESIGN.md §6 C01"
     rule = ("random pipelines (depth<=5, <=3 hot subjects, cold sources incl. create with malformed scripts, "
             "all single-input variants, start_with, the 8 two-input combinators; local and _threads) x event "
@@ -72,7 +73,6 @@ class C01(Prop):
         out = gen_cases(rng, tier, pg.single_variants(3), 20000 if tier == "quick" else 200000)
         # chains with scheduler-using operators and time / async sources (theorem C01C_chain_grammar over the
         # chain model): the populations of C07, C08, C09 and C16 plus hot chains with malformed tails
-        import importlib
         from .. import timegen as tg
         for name in ("c07", "c08", "c09", "c16"):
             try:
@@ -94,13 +94,97 @@ class C01(Prop):
                 evs.insert(rng.randint(1, len(evs)), ["emit", "0", rng.choice([["n", "9"], "c", ["e", "5"]])])
             out.append(Case("time", rng.choice(["local", "threads"]), [("pipe", [pipe])], evs,
                             {"kind": "time-malformed"}))
-        return tg.with_units(seed, out)
+        out = tg.with_units(seed, out)
+        # merge_all / group_by / share (theorems C01M_* over their own models): a sample of the populations of
+        # C05, C20 and C11, full lines compared, grammar oracle per delivered stream
+        for name, cap in (("c05", 2500), ("c20", 2500), ("c11", 2500)):
+            try:
+                cs = importlib.import_module(f"vlib.props.{name}").PROP.cases("quick", seed)
+            except Exception as ex:            # pragma: no cover
+                print(f"note: C01 skips the {name} population: {ex}")
+                continue
+            cs = [c for c in cs if c.suite in ("flatten", "groupby", "share")]
+            rng.shuffle(cs)
+            for c in cs[: cap if tier == "quick" else cap * 4]:
+                c.meta = {"kind": "multicast-" + name}
+                out.append(c)
+        return out
+
+    def _multicast_oracle(self, case, lines):
+        """flatten: one log `o=`; groupby: `G<k>` announcements (items of the outer stream) and `g<k>:<notif>`
+        per group, outer terminals bare; share: `d=<label>:<notif>;…`, a label is re-used by a later `sub`."""
+        logs = {}
+        if case.suite == "share":
+            # the harness prints deliveries per probe LABEL; a `sub k` while label k is still held would put two
+            # probes under one label (C01M_share_label_statement is refuted by exactly that aliasing): the
+            # per-subscription theorem C01M_share_grammar is checked on the histories where labels are unique
+            held = set()
+            for e in case.events:
+                if e[0] == "sub":
+                    if e[1] in held:
+                        return None
+                    held.add(e[1])
+                elif e[0] == "unsub":
+                    held.discard(e[1])
+        for k, e in enumerate(case.events):
+            b = lines.get(k)
+            if b is None:
+                continue
+            if b in ("PANIC", "RELOCK", "HANG"):
+                # a stuck merge_all is C05's finding, not a grammar violation
+                return None
+            toks = []
+            if case.suite == "share":
+                if e[0] == "sub":
+                    logs.pop("s" + e[1], None)         # a new subscription under this label
+                if b.startswith("d="):
+                    for t in b[2:].split(" ")[0].split(";"):
+                        if t:
+                            lab, _, n = t.partition(":")
+                            toks.append(("s" + lab, n[0]))
+            elif b.startswith("o="):
+                for t in b[2:].split(" ")[0].split(";") if case.suite == "groupby" else b[2:].split(";"):
+                    if not t:
+                        continue
+                    if case.suite == "groupby" and t[0] == "G":
+                        toks.append(("outer", "N"))
+                    elif case.suite == "groupby" and t[0] == "g":
+                        lab, _, n = t.partition(":")
+                        toks.append((lab, n[0]))
+                    else:
+                        toks.append(("outer", t[0]))
+            for lab, ch in toks:
+                logs[lab] = logs.get(lab, "") + ch
+                if not re.fullmatch(r"N*[EC]?", logs[lab]):
+                    return {"kind": "grammar", "event": k, "detail": f"stream {lab}: kinds = {logs[lab]}"}
+        return None
+
+    def shrink_candidates(self, case):
+        if case.suite in ("flatten", "groupby", "share"):
+            out = []
+            for i in range(len(case.events)):
+                c = case.copy()
+                del c.events[i]
+                out.append(c)
+            return out
+        return super().shrink_candidates(case)
+
+    def signature(self, case, failure):
+        if case.suite in ("flatten", "groupby", "share"):
+            return f"{failure['kind']}|{case.suite}"
+        return super().signature(case, failure)
 
     def project(self, body):
         return kinds(body)
 
+    def compare_from(self, case):
+        # two subscriptions of one pipeline value (field `twosubs`) have no model: the oracle decides
+        return len(case.events) if case.field("twosubs") else 0
+
     def oracle(self, case, lines, model_lines=None):
-        log = ""
+        if case.suite in ("flatten", "groupby", "share"):
+            return self._multicast_oracle(case, lines)
+        logs = ["", ""]
         for k in range(len(case.events)):
             b = lines.get(k)
             if b is None:
@@ -108,9 +192,14 @@ class C01(Prop):
             if b == "PANIC":
                 return {"kind": "panic", "event": k, "detail": "implementation panicked"}
             if b.startswith("o="):
-                log += kinds(b)[2:]
-                if not re.fullmatch(r"N*[EC]?", log):
-                    return {"kind": "grammar", "event": k, "detail": f"probe log kinds = {log}"}
+                # `o=… o2=… live=…` (twosubs): the grammar holds for each subscription's own log
+                head, sep, rest = b.partition(" live=")
+                a, has2, b2 = head.partition(" o2=")
+                for i, part in enumerate([a + sep + rest] + (["o=" + b2 + sep + rest] if has2 else [])):
+                    logs[i] += kinds(part)[2:]
+                    if not re.fullmatch(r"N*[EC]?", logs[i]):
+                        return {"kind": "grammar", "event": k,
+                                "detail": f"probe log kinds of subscription {i + 1} = {logs[i]}"}
         return None
 
 
